@@ -684,6 +684,11 @@ def pending_deletions(ck, fb):
         ok = False
         if tests and outs:
             ok = all(any("needs_garbage_collection()" in estr(c) and pol is False for c, pol, e in f.facts(b)) for b, i in outs)
+        if not ok and not tests and any(x.get("pn", "").split("::")[-1] in ("collect_garbage", "garbage_collection") for b, i, x in f.nodes(("call",)) if b in f.reach()):
+            # the statement allows the other answer too ("refused or written as its logical content"): a writer that collects
+            # garbage on a copy before writing has no refusal test - not judged
+            ck.cannot_judge("C06.pending %s: %s collects garbage instead of refusing pending deletions - whether it writes the logical content is not judged" % (f.where, f.pq.split("::")[-1]))
+            continue
         (ck.ok if ok else lambda r_, w_, t: ck.violate(r_, w_, t, "C06.pending:%s" % f.pq))("C06.pending", f.where, "%s writes only when !needs_garbage_collection() (%d output sites)" % (f.pq.split("::")[-1], len(outs)))
 
 
